@@ -215,6 +215,14 @@ def check_guard(rep, ix):
     ok = len(tries) == 2 and all(len(t.handlers) == 1 and _n(t.handlers[0].type) == 'KeyError' and isinstance(t.handlers[0].body[-1], ast.Raise) and
                                  'ExceptionUnitsUnknownUnit' in _n(t.handlers[0].body[-1]) for t in tries)
     rep.ob('R-C17-GUARD', site, 'a unit the table does not know is refused with ExceptionUnitsUnknownUnit (both arguments)', ok, node=f, module=lm)
+    # ... and before anything is returned: both lookups stand in front of every return (a short cut for equal unit names would
+    # return the value for a unit that does not exist)
+    gconv = cfgmod.CFG(f)
+    domc = gconv.dominators()
+    rets_c = [s_ for s_ in gconv.stmts() if isinstance(s_, ast.Return)]
+    early = [r_ for r_ in rets_c if not all(t in domc.get(r_, ()) for t in tries)]
+    rep.ob('R-C17-GUARD', site, 'both unit names are looked up before any value is returned', bool(tries) and not early,
+           found='; '.join(_n(r_)[:60] for r_ in early), required='no return ahead of the lookups', node=early[0] if early else f, module=lm)
     ucf = ix.get_func(LU, 'UnitConvertCategory.unitConvertor')
     tries = [n for n in walk_no_nested(ucf) if isinstance(n, ast.Try)]
     ok = len(tries) == 1 and len(ucf.body) <= 2 and isinstance(ucf.body[-1], ast.Try) and len(tries[0].body) == 1 and isinstance(tries[0].body[0], ast.Return) and \
